@@ -353,8 +353,10 @@ def mon_out(stream, case, obs, want):
                         if skipped:
                             hits.append((i, "order-skipped", f"PUBLISH mid={m} first written on connection {c} while the earlier "
                                          f"message(s) {sorted(skipped)} have not been transmitted on it"))
-                    # C13 order
-                    if "order" in want:
+                    # C13 order (judged only while the broker conforms: an acknowledgement for something it was never sent on
+                    # this connection - e.g. scripted for a connection the application has meanwhile replaced from inside
+                    # on_disconnect - makes the client answer out of turn, which is the broker's doing)
+                    if "order" in want and conforming:
                         seqs_new = [s_ for (k_, m_, s_) in sent_on[c] if k_ == "PUBLISH" and s_ > conn_open_seq.get(c, 0)]
                         firsts = []
                         for s_ in seqs_new:
